@@ -1,8 +1,8 @@
 (* C11 — inconsistent InRelease/Release pairs are never published.
    (The pipeline-level statement "invalid after the last round => nothing is
    published" is Props/C02.v / the pipeline model.) *)
-From AM.Model Require Import Base Path Targets ReleaseCheck.
-From AM.Lemmas Require Import ReleaseLemmas.
+From AM.Model Require Import Base Path Targets ReleaseCheck Download Stage ReleaseStage.
+From AM.Lemmas Require Import ReleaseLemmas ReleaseStageLemmas ReleaseStageExamples.
 From Coq Require Import Permutation.
 Open Scope string_scope.
 Open Scope list_scope.
@@ -35,3 +35,21 @@ Theorem release_loop_bounded :
   (valid 0 = true -> k = 1 /\ ok = true).
 Proof. exact release_loop_bounded_lemma. Qed.
 Print Assumptions release_loop_bounded.
+
+(* The release stage over the downloader model (Model/ReleaseStage.v): every round sends the release files
+   through the downloader, drops from skel the ones not obtained in that round, and validates what is there.
+   For EVERY upstream behaviour per round and EVERY previous skel: between 1 and max(1, retries) rounds; a
+   result is a skel that validated; giving up means all the rounds were used - and then the repository fails
+   without selecting, fetching or publishing anything ([repo_run_full] is None). *)
+Theorem release_stage_bounded_and_validated :
+  forall retries relq u validf skel k r,
+  release_stage retries relq u validf skel = (k, r) ->
+  1 <= k /\ k <= Nat.max 1 retries /\
+  match r with Some (_, s) => validf s = true | None => k = Nat.max 1 retries end.
+Proof. exact release_stage_bounds. Qed.
+Print Assumptions release_stage_bounded_and_validated.
+
+Example release_stage_gives_up_after_all_rounds :
+  release_stage 3 y_relq (fun _ => y_u) (fun _ => false) y_stale_skel = (3, None) /\
+  release_stage 0 y_relq (fun _ => y_u) (fun _ => false) y_stale_skel = (1, None).
+Proof. exact release_stage_gives_up. Qed.
